@@ -846,6 +846,23 @@ let op_guess r = function
        | _ -> flag r "corr:guess-snap");
       (* ---- C18 oracle on the implementation's output, against the layout that generated the dump ---- *)
       let calls = List.concat_map (fun (g : M.goroutine) -> g.M.gSig.M.sStack.M.calls) i_gs in
+      let expect, cexpect = (match String.split_on_char ';' expect with [a; b] -> (a, b) | [a] -> (a, "") | _ -> failwith "expect") in
+      (* creators: one entry per goroutine ("-" = no creator, "?" = not predicted) *)
+      (try List.iter2 (fun e (g : M.goroutine) ->
+         match g.M.gSig.M.createdBy.M.calls, e with
+         | c :: _, e when e <> "-" && e <> "?" ->
+           (match String.split_on_char '|' e with
+            | [cls; el; er; _] ->
+              if loc_to c.M.cLocation <> cls || string_of_bytes c.M.localSrcPath <> unhex el || string_of_bytes c.M.relSrcPath <> unhex er
+              then flag r "prop:C18:creator-frame"
+            | _ -> ())
+         | _ -> ()) (split_on ',' cexpect) i_gs with Invalid_argument _ -> ());
+      (* a frame's resolution never depends on its goroutine's creator: the same file gets the same answer everywhere *)
+      let all_calls = List.concat_map (fun (g : M.goroutine) -> g.M.gSig.M.sStack.M.calls @ g.M.gSig.M.createdBy.M.calls) i_gs in
+      List.iter (fun (a : M.call) -> List.iter (fun (b : M.call) ->
+        if a.M.remoteSrcPath = b.M.remoteSrcPath && a.M.remoteSrcPath <> [] &&
+           (a.M.localSrcPath <> b.M.localSrcPath || a.M.relSrcPath <> b.M.relSrcPath)
+        then flag r "prop:C18:same-file-resolved-differently") all_calls) all_calls;
       let exps = split_on ',' expect in
       if List.length exps <> List.length calls then flag r "driver:guess-expect-length"
       else List.iter2 (fun e (c : M.call) ->
@@ -927,8 +944,19 @@ let op_augment r = function
 
 (* ---------- op: handler (C20) ---------- *)
 let op_handler r = function
-  | [meth; maxmem; augment; similarity; i_status; complete] ->
+  | [meth; maxmem; augment; similarity; i_status; complete; dlen] ->
     tag r ("status=" ^ i_status);
+    (* a dump larger than the first buffer: the model's capture loop says whether it is captured whole *)
+    (if dlen <> "0" then begin
+       tag r "big";
+       let z s = z_of_dec s in
+       match M.capture (z (unhex maxmem)) (z dlen) with
+       | Some (_, n) ->
+         if n = z dlen then (if i_status <> "200" then flag r "prop:C20:dump-fits-but-not-served")
+         else tag r "truncated"
+       | None -> flag r "model:capture-out-of-fuel"
+     end);
+    if complete = "A" then flag r "prop:C20:augment-parameter-not-honoured";
     let st = M.handler (bytes_of_hex meth) (bytes_of_hex maxmem) (bytes_of_hex augment) (bytes_of_hex similarity) (fun _ _ -> false) in
     let m = string_of_int (int_of_nat (M.status_class st)) in
     if m <> i_status then (flag r "corr:handler"; r.detail <- Printf.sprintf "model %s impl %s" m i_status);
